@@ -45,6 +45,11 @@ CHECKS["C04"] = dict(level="fault_enumeration", design="5/C04",
    text="5.4 million (program, abort point) runs in the quick tier: every second program of five allocating slices and the whole corpus is aborted after every instruction count below its length through the VM's ordinary error exit; after each run, and after the harness releases the result graph (each distinct box once), the ledger of boxes must be empty, nothing released twice, the result not already released. Plus the 61 000-state collector-history graph checked for exact agreement of the real allocated/managed sets with the model after every operation.",
    note="trusted: the allocation ledger (allocate/destroy hooks), the instruction-budget hook as the injected fault; boxes not obtained through object.rs::allocate are invisible to the ledger")
 
+CHECKS["C09"] = dict(level="exploration", design="5/C09",
+   technique="bounded-exhaustive enumeration of scoping programs compared with a static-resolution reference interpreter, and for every program all renamings of one declaration, all insertions of an unused (shadowing) declaration and all single-occurrence replacements by an undeclared name (metamorphic variants enumerated completely)",
+   text="3.2 million base programs of the scope slice (nested blocks, shadowing at every depth, re-declaration, named functions in blocks and in functions, calls) up to 6 nodes plus a nested-function directed family, and 15.5 million variant runs in the quick tier: consistent renaming and unused-declaration padding must not change value/output/error; an undeclared name anywhere must give a reference error before any output; the base outcome must equal the reference interpreter's.",
+   note="trusted: refint::Resolver (static resolution rules of DESIGN 4.2), the AST surgery of astx.rs; programs the model marks unspecified (U1/U2/U6/U7) are not used as bases")
+
 NOT_YET = {}
 props = [json.loads(l) for l in open("/verif/properties.jsonl")]
 checks = []
